@@ -56,7 +56,7 @@ Print Assumptions C04_base_too_large.
 (* non-vacuity: -n 2 -s 14, command "echo", five arguments, one over-long at the end *)
 Example C04_witness :
   let c := {| c_n := Some 2; c_L := None; c_s := Some 14; c_x := false; c_r := false;
-              c_sys := 100000; c_init := [4]; c_replace := false |} in
+              c_sys := 100000; c_init := [4]; c_replace := false; c_subst := fun _ => [] |} in
   let mk i l k := {| aid := i; alen := l; akind := k |} in
   xargs_run c [mk 0 3 Soft; mk 1 3 Hard; mk 2 5 Soft; mk 3 1 Hard] false [Exit 0; Exit 1; Exit 0]
   = (123, [[mk 0 3 Soft; mk 1 3 Hard]; [mk 2 5 Soft; mk 3 1 Hard]]) /\
